@@ -49,9 +49,9 @@ Proof.
                   | None => [(m, n)] end) = []).
   { induction cert as [|row cert IH]; [contradiction|]. cbn [flat_map] in H. apply app_eq_nil in H. destruct H as [H1 H2].
     destruct Hin as [->|Hin]; [exact H1|exact (IH H2 Hin)]. }
-  cbn in Hrow. destruct (find_quantity qs m) as [q|]; [|discriminate].
-  destruct (find_unit q n) as [u|]; [|discriminate].
-  exists q, u. split; [reflexivity|]. split; [reflexivity|].
+  cbn in Hrow. destruct (find_quantity qs m) as [q|] eqn:Eq; [|discriminate].
+  destruct (find_unit q n) as [u|] eqn:Eu; [|discriminate].
+  exists q, u. split; [reflexivity|]. split; [exact Eu|].
   destruct (kn m n) eqn:E; [left; reflexivity|]. right. cbn in Hrow. destruct (coherent qs pf (tl m n) q u rs); [reflexivity|discriminate].
 Qed.
 
